@@ -20,7 +20,7 @@ fn create_equalizer(
     other_hctl_var_name: Option<&str>,
 ) -> GraphColoredVertices {
     // TODO: merge both branches to not repeat code
-    let mut comparator = graph.mk_unit_colored_vertices().as_bdd().clone();
+    let mut comparator = graph.symbolic_context().mk_constant(true);
 
     // HCTL variables are named x, xx, xxx, ...
     let hctl_var_id = hctl_var_name.len() - 1; // len of var codes its index
@@ -66,9 +66,14 @@ fn create_equalizer(
         }
     }
 
+    let comparator = GraphColoredVertices::new(comparator, graph.symbolic_context());
+    if other_hctl_var_name.is_some() {
+        // equalizer between two HCTL variables is only used for renaming, so it must be a pure equality
+        // (the unit bdd may restrict domains of these variables, which must not leak into renamed sets)
+        return comparator;
+    }
     // do intersection with the unit bdd (static constraints) to be sure its valid
-    GraphColoredVertices::new(comparator, graph.symbolic_context())
-        .intersect(graph.unit_colored_vertices())
+    comparator.intersect(graph.unit_colored_vertices())
 }
 
 /// Wrapper for creating an `equalizer` between the components of the state (network vars) and
